@@ -53,16 +53,18 @@ def solve_one(ob, timeout_ms=10000, use_cvc5=True, recheck_cvc5=False):
     t0 = time.time()
     if solve_without_lambdas(ob["pc"], ob["goal"], timeout_ms=min(timeout_ms, LAMBDA_FREE_FIRST_MS)) == "unsat":
         return {"name": ob["name"], "status": "unsat", "backend": "z3(hypotheses with lambda terms dropped)", "time_s": round(time.time() - t0, 4),
-                "model": None, "meta": ob.get("meta", {})}
+                "model": None, "meta": {k: v for k, v in (ob.get("meta", {}) or {}).items() if not callable(v)}}
     s = z3.Solver()
     s.set("timeout", min(timeout_ms, FIRST_TRY_MS))
     s.add(*ob["pc"])
     s.add(z3.Not(ob["goal"]))
     r = s.check()
     status, backend, model = str(r), "z3", None
+    zmodel = None
     if r == z3.sat:
         try:
-            model = model_to_dict(s.model())
+            zmodel = s.model()
+            model = model_to_dict(zmodel)
         except Exception:
             model = {}
     elif r == z3.unknown:
@@ -87,15 +89,33 @@ def solve_one(ob, timeout_ms=10000, use_cvc5=True, recheck_cvc5=False):
                 elif r2 == z3.sat:
                     status, backend = "sat", "z3"
                     try:
-                        model = model_to_dict(s2.model())
+                        zmodel = s2.model()
+                        model = model_to_dict(zmodel)
                     except Exception:
                         model = {}
         if status == "unknown":
             sm = small_model_search(ob["pc"], ob["goal"], timeout_ms=min(timeout_ms, FIRST_TRY_MS))
             if sm is not None:
-                status, backend, model = "sat", "z3(small-size counter-model search)", sm
+                status, backend, model, zmodel = "sat", "z3(small-size counter-model search)", sm[0], sm[1]
+    meta = ob.get("meta", {}) or {}
     res = {"name": ob["name"], "status": status, "backend": backend, "time_s": round(time.time() - t0, 4), "model": model,
-           "meta": ob.get("meta", {})}
+           "meta": {k: v for k, v in meta.items() if not callable(v)}}
+    conc = meta.get("concretize")
+    if status == "sat" and conc is not None and zmodel is not None:
+        # turn the counter-model into a concrete call of the real function (replayed by the driver under the repository's interpreter)
+        try:
+            res["replay"] = conc(lambda e, zm=zmodel: zm.eval(e, model_completion=True))
+        except Exception as ex:
+            res["replay_error"] = repr(ex)[:300]
+            # typically the model is needlessly large (n = 31895): look for a small counter-model of the same obligation
+            sm = small_model_search(ob["pc"], ob["goal"], timeout_ms=min(timeout_ms, FIRST_TRY_MS), bound=4)
+            if sm is not None:
+                try:
+                    res["replay"] = conc(lambda e, zm=sm[1]: zm.eval(e, model_completion=True))
+                    res["model"] = sm[0]
+                    res.pop("replay_error", None)
+                except Exception as ex2:
+                    res["replay_error"] = repr(ex2)[:300]
     if recheck_cvc5 and status == "unsat" and backend == "z3":
         c = run_cvc5(smt2_of(ob["pc"], ob["goal"]), max(5, timeout_ms / 1000))
         res["cvc5_recheck"] = c
@@ -204,10 +224,11 @@ def small_model_search(pc, goal, timeout_ms=3000, bound=3):
     for c in ints:
         s.add(c >= -1, c <= bound)
     if s.check() == z3.sat:
+        zm = s.model()
         try:
-            return model_to_dict(s.model())
+            return model_to_dict(zm), zm
         except Exception:
-            return {}
+            return {}, zm
     return None
 
 
